@@ -164,11 +164,11 @@
 (define bag-partition! bag-partition)
 
 (define (bag-copy bag)
-  (make-bag (hash-table-copy (bag-table bag))
+  (make-bag (hash-table-copy (bag-table bag) #t)
             (bag-comparator bag)))
 
 (define (bag->list bag)
-  (hash-table-keys (bag-table bag)))
+  (bag-fold cons '() bag))
 
 (define (list->bag comparator list)
   (fold (lambda (elt bag) (bag-adjoin! bag elt)) (bag comparator) list))
@@ -180,18 +180,26 @@
   (or (eq? (bag-comparator bag1) (bag-comparator bag2))
       (error "can't compare bags with different comparators" bag1 bag2)))
 
+(define (%bag<=? bag1 bag2)
+  ;; every element occurs in bag2 at least as often as in bag1
+  (let ((ht2 (bag-table bag2)))
+    (not (hash-table-find
+          (lambda (elt count) (> count (hash-table-ref/default ht2 elt 0)))
+          (bag-table bag1)
+          (lambda () #f)))))
+
 (define (bag=? bag1 . bags)
   (or (null? bags)
       (and (comparable-bags? bag1 (car bags))
-           (= (bag-size bag1) (bag-size (car bags)))
-           (bag-every? (lambda (elt) (bag-contains? bag1 elt)) (car bags))
+           (%bag<=? bag1 (car bags))
+           (%bag<=? (car bags) bag1)
            (apply bag=? bags))))
 
 (define (bag<? bag1 . bags)
   (or (null? bags)
       (and (comparable-bags? bag1 (car bags))
-           (< (bag-size bag1) (bag-size (car bags)))
-           (bag-every? (lambda (elt) (bag-contains? (car bags) elt)) bag1)
+           (%bag<=? bag1 (car bags))
+           (not (%bag<=? (car bags) bag1))
            (apply bag<? bags))))
 
 (define (bag>? . bags)
@@ -200,8 +208,7 @@
 (define (bag<=? bag1 . bags)
   (or (null? bags)
       (and (comparable-bags? bag1 (car bags))
-           (<= (bag-size bag1) (bag-size (car bags)))
-           (bag-every? (lambda (elt) (bag-contains? (car bags) elt)) bag1)
+           (%bag<=? bag1 (car bags))
            (apply bag<=? bags))))
 
 (define (bag>=? . bags)
@@ -287,7 +294,7 @@
                 (hash-table-update!/default (bag-table bag1)
                                             elt
                                             (lambda (c) (+ c count))
-                                            count))
+                                            0))
               (bag-table (car bags)))
              (apply bag-sum! bag1 (cdr bags))))))
 
@@ -324,7 +331,7 @@
   (bag-increment! bag element (- count)))
 
 (define (bag->set bag)
-  (let ((ht (hash-table-copy (bag-table bag))))
+  (let ((ht (hash-table-copy (bag-table bag) #t)))
     (hash-table-map! (lambda (key count) key) ht)
     (make-set ht (bag-comparator bag))))
 
